@@ -24,7 +24,8 @@ func chainOperands() []Expr {
 		Path{Steps: []*Step{{Axis: "child", Abbrev: "child", Test: Test{Kind: "name", Local: "b"}}, {Axis: "child", Abbrev: "child", Test: Test{Kind: "name", Local: "c"}}}},
 		child("a-b"), Path{Steps: []*Step{SelfDot()}}, Path{Abs: true, Steps: []*Step{DSlash(), {Axis: "child", Abbrev: "child", Test: Test{Kind: "name", Local: "c"}}}},
 		Path{Steps: []*Step{{Axis: "child", Abbrev: "child", Test: Test{Kind: "text"}}}},
-		xref.Num{Lex: ".5"},
+		xref.Num{Lex: ".5"}, child("text"), child("node"), child("comment"),
+		Path{Steps: []*Step{{Axis: "child", Abbrev: "child", Test: Test{Kind: "name", Local: "processing-instruction"}}, {Axis: "child", Abbrev: "child", Test: Test{Kind: "text"}}}},
 		Path{Steps: []*Step{{Axis: "child", Abbrev: "child", Test: Test{Kind: "name", Prefix: "p", Local: "a"}}, {Axis: "child", Abbrev: "child", Test: Test{Kind: "name", Local: "b"}}}},
 		Path{Steps: []*Step{{Axis: "attribute", Abbrev: "@", Test: Test{Kind: "name", Prefix: "q", Local: "k"}}}},
 		Path{Steps: []*Step{{Axis: "parent", Test: Test{Kind: "node"}, Abbrev: ".."}, {Axis: "child", Abbrev: "child", Test: Test{Kind: "name", Prefix: "p", Local: "div"}}}},
